@@ -431,3 +431,5 @@ _quick("C15", "C15_release", "a holder sets a value of 2 symbolic bytes (persist
 _quick("C13", "C13_manyholds", "one binary connection takes N = 1 / 63 / 64 / 65 / 130 holds on N keys (around and beyond the 64 slots of its free-command array) through the real ProcessParse, optionally lets N requests wait behind them, releases all in the same or reverse order, takes N/2 again, closes: every request answered with one 64-byte frame, no crash, a second connection still served", ["-witness", "1"], reach=["end", "released"])
 
 _quick("C02", "C02_dupwait", "a key of capacity 2 held by Y and Z; LockId X queues two requests (second with the same terms or Rcount 1); Y and Z leave; UNLOCK of X with Rcount 0 must remove everything X holds (key free), a second UNLOCK of X is refused", ["-witness", "1"], reach=["both-granted"])
+
+_quick("C18", "C18_promoted", "through the real Server.handle with the forwarding wrappers: the node is a follower when a binary / text client connects and answers its PING, is promoted to leader before the client's second packet, which registers a will; the client goes away: the will runs on this node exactly once", ["-witness", "1"], reach=["promoted"])
